@@ -48,6 +48,23 @@ class SuperRef:
         self.mod, self.cls, self.obj = mod, cls, obj  # cls: the class whose body `super()` appears in
 
 
+class FileStandIn:
+    """what an `open(...)` stand-in hands out: the text of a data file of the repository (read once, by `read()`)"""
+
+    def __init__(self, text):
+        self.text = text
+
+    def read(self):
+        return self.text
+
+
+class Namespace:
+    """a stand-in for an imported module (`path`, `os`): attributes are python callables"""
+
+    def __init__(self, **kw):
+        self.__dict__.update(kw)
+
+
 class _Return(Exception):
     def __init__(self, v):
         self.v = v
@@ -238,6 +255,14 @@ class Evaluator:
         elif isinstance(s, ast.Assert):
             if not self._truth(self._expr(s.test, env, mod, cls)):
                 raise Raised("AssertionError", s)
+        elif isinstance(s, ast.With):
+            for it in s.items:
+                v = self._expr(it.context_expr, env, mod, cls)
+                if not isinstance(v, FileStandIn):
+                    raise Undecided("with-statement over %s" % type(v).__name__)
+                if it.optional_vars is not None:
+                    self._store(it.optional_vars, v, env, mod, cls)
+            self._block(s.body, env, mod, cls)
         elif isinstance(s, ast.Try):
             try:
                 self._block(s.body, env, mod, cls)
@@ -368,7 +393,10 @@ class Evaluator:
             if e.id in ("True", "False", "None"):
                 return {"True": True, "False": False, "None": None}[e.id]
             if e.id in self.externals:
-                return ("pyfunc", self.externals[e.id])
+                x = self.externals[e.id]
+                return x if isinstance(x, Namespace) else ("pyfunc", x)
+            if e.id == "__file__":
+                return mod.path
             r = self.repo.resolve_name(mod.name, e.id)
             if r:
                 m2 = self.repo.modules[r[0]]
@@ -490,6 +518,12 @@ class Evaluator:
                 raise Raised("TypeError", e)
         if isinstance(e, ast.Attribute):
             o = self._expr(e.value, env, mod, cls)
+            if isinstance(o, Namespace):
+                if not hasattr(o, e.attr):
+                    raise Undecided("attribute %s of a module stand-in" % e.attr)
+                return ("pyfunc", getattr(o, e.attr))
+            if isinstance(o, FileStandIn) and e.attr == "read":
+                return ("pymethod", o, "read")
             if isinstance(o, Obj):
                 if e.attr == "__class__" and o.mod != "builtins":
                     return ClassRef(o.mod, o.cls)
@@ -603,6 +637,11 @@ class Evaluator:
                     else:
                         raise Undecided("isinstance against %r" % (t,))
                 return False
+            if nm == "type" and len(e.args) == 1 and not e.keywords:
+                v = self._expr(e.args[0], env, mod, cls)
+                if isinstance(v, (Obj, ClassRef, SuperRef)) or (isinstance(v, tuple) and v and v[0] in ("func", "pyfunc", "method", "pymethod")):
+                    raise Undecided("type() of an object")
+                return type(v)
             if nm in ("getattr", "hasattr") and len(e.args) in (2, 3):
                 o = self._expr(e.args[0], env, mod, cls)
                 an = self._expr(e.args[1], env, mod, cls)
@@ -671,6 +710,11 @@ class Evaluator:
             qn = _qual(m2, fn2)
             if tuple(qn.split(".", 1)) in self.method_hooks:
                 return self.method_hooks[tuple(qn.split(".", 1))](bound, *args, **kw)
+            if self.method_hooks and isinstance(bound, (Obj, ClassRef)) and bound.mod in self.repo.modules:
+                # a stand-in registered for the receiver's class (or one between it and the defining class) covers an inherited method
+                for _, c3 in self.repo.mro(bound.mod, bound.cls):
+                    if (c3, fn2.name) in self.method_hooks:
+                        return self.method_hooks[(c3, fn2.name)](bound, *args, **kw)
             c2 = qn.rsplit(".", 1)[0] if "." in qn else None
             decs = decorators(fn2)
             if "property" in decs:
